@@ -4,10 +4,12 @@ from common import *
 import kernel, slp
 
 COQ_PROPS = 'props/C06.v'
+COQ_PROPS_EXTRA = ['props/C06chain.v']
 PARTIAL = ('proved: result() keeps value and independent/dependent components (step-level), every later result and report is '
            'identical with or without declared intermediates (congruence of eval_un and of the reports, for every number '
-           'instance); the chain rule THROUGH an intermediate (sensitivity(w,m)*sensitivity(m,x)=sensitivity(w,x)), complex and '
-           'array result() are validated by correspondence and the oracle only')
+           'instance); the chain rule through an intermediate for every expression tree (the intermediate vector of w holds '
+           'u(m) * dw/dm; sensitivity and u_component w.r.t. m), by transporting the C02 theorem through the vector swap; '
+           'complex and array result() are validated by correspondence and the oracle only')
 ASSUMPTIONS = ['u(m) > 0 for the chain-rule clause (sensitivity w.r.t. a zero-uncertainty intermediate is reported as 0: documented)']
 TRUSTED = []
 
